@@ -36,17 +36,19 @@ Record hst := mkH {
   hp : list cell;          (* the heap: address a is cell number a *)
   hq : qn -> list Z;       (* the queues *)
   hlive : list Z;          (* harness: watches it believes live *)
-  hnow : Z; hiter : Z; hlog : list obs }.
+  hnow : Z; hiter : Z; hlog : list obs;
+  hdrop : bool             (* the application has dropped its reference *) }.
 
-Definition hst0 : hst := mkH [] (fun _ => []) [] 0 0 [].
+Definition hst0 : hst := mkH [] (fun _ => []) [] 0 0 [] false.
 
-Definition set_hp (h : hst) (v : list cell) : hst := mkH v (hq h) (hlive h) (hnow h) (hiter h) (hlog h).
+Definition set_hp (h : hst) (v : list cell) : hst := mkH v (hq h) (hlive h) (hnow h) (hiter h) (hlog h) (hdrop h).
 Definition setq (h : hst) (n : qn) (v : list Z) : hst :=
-  mkH (hp h) (fun m => if qn_eqb n m then v else hq h m) (hlive h) (hnow h) (hiter h) (hlog h).
-Definition set_hlive (h : hst) (v : list Z) : hst := mkH (hp h) (hq h) v (hnow h) (hiter h) (hlog h).
-Definition set_hnow (h : hst) (v : Z) : hst := mkH (hp h) (hq h) (hlive h) v (hiter h) (hlog h).
-Definition set_hiter (h : hst) (v : Z) : hst := mkH (hp h) (hq h) (hlive h) (hnow h) v (hlog h).
-Definition set_hlog (h : hst) (v : list obs) : hst := mkH (hp h) (hq h) (hlive h) (hnow h) (hiter h) v.
+  mkH (hp h) (fun m => if qn_eqb n m then v else hq h m) (hlive h) (hnow h) (hiter h) (hlog h) (hdrop h).
+Definition set_hlive (h : hst) (v : list Z) : hst := mkH (hp h) (hq h) v (hnow h) (hiter h) (hlog h) (hdrop h).
+Definition set_hnow (h : hst) (v : Z) : hst := mkH (hp h) (hq h) (hlive h) v (hiter h) (hlog h) (hdrop h).
+Definition set_hiter (h : hst) (v : Z) : hst := mkH (hp h) (hq h) (hlive h) (hnow h) v (hlog h) (hdrop h).
+Definition set_hlog (h : hst) (v : list obs) : hst := mkH (hp h) (hq h) (hlive h) (hnow h) (hiter h) v (hdrop h).
+Definition set_hdrop (h : hst) (v : bool) : hst := mkH (hp h) (hq h) (hlive h) (hnow h) (hiter h) (hlog h) v.
 
 (* a checked read of the node at address a *)
 Definition rd (h : hst) (a : Z) : option watch :=
@@ -186,6 +188,7 @@ Definition h_reg (h : hst) (a : action) : option hst :=
   | AWatch _ _ _ _ => Some h
   | ACancel _ => Some h
   | ANop => Some h
+  | ADrop => Some (set_hdrop h true)
   end.
 
 Definition h_regs (h : hst) (l : list action) : option hst :=
@@ -369,6 +372,24 @@ Definition h_op (oh : option hst) (o : op) : option hst :=
 
 Definition h_run_ops (ops : list op) : option hst := fold_left h_op ops (Some hst0).
 
+(* the script until the application's reference is gone (see LoopDefs.run_opsx) *)
+Fixpoint h_run_opsx (ops : list op) (h : hst) : option (hst * bool) :=
+  match ops with
+  | [] => Some (h, false)
+  | o :: r => match h_op (Some h) o with
+              | None => None
+              | Some h' => if hdrop h' then Some (h', true) else h_run_opsx r h'
+              end
+  end.
+
+(* tickit_destroy when tickit_tick's own unref (or the application's, between ticks) frees the instance *)
+Definition h_destroy_now (h : hst) : option hst :=
+  match h_destroy_list h QI with None => None | Some h1 =>
+  match h_destroy_list h1 QT with None => None | Some h2 =>
+  match h_destroy_list h2 QL with None => None | Some h3 =>
+  match h_destroy_list h3 QS with None => None | Some h4 =>
+  h_destroy_list h4 QP end end end end.
+
 Definition no_live (h : hst) : bool := forallb (fun c => match c with Freed => true | Live _ => false end) (hp h).
 
 (* the verdict of a whole case: None = Fault (a freed or wild node was touched);
@@ -380,6 +401,16 @@ Definition h_run (ops : list op) : option (list obs * bool) :=
               | None => None
               | Some h' => Some (rev (hlog h'), no_live h')
               end
+  end.
+
+Definition h_runx (ops : list op) : option (list obs * bool) :=
+  match h_run_opsx ops hst0 with
+  | None => None
+  | Some (h, early) =>
+      match (if early then h_destroy_now h else h_destroy h) with
+      | None => None
+      | Some h' => Some (rev (hlog h'), no_live h')
+      end
   end.
 
 End WithEnv.
